@@ -54,7 +54,7 @@ def main():
     na = [dict(property_id=p, reason='not claimed in this revision: the machinery for it is still being built (see DESIGN.md §8)') for p in allp if p not in claimed]
     man = dict(
         version=1,
-        setup_cmd='python3 tools/translate.py && (cd lean && lake build Dsi.All driver) && (cd harness && cp -n /repo/Cargo.lock Cargo.lock 2>/dev/null; CARGO_NET_OFFLINE=true cargo build --release --offline)',
+        setup_cmd='python3 tools/translate.py && (cd lean && lake build Dsi.All driver ghdriver) && (cd harness && cp -n /repo/Cargo.lock Cargo.lock 2>/dev/null; CARGO_NET_OFFLINE=true cargo build --release --offline)',
         hooks=dict(guard='--cfg dsi_bitstream_verif', enable='no hook is needed: the harness observes the library through its public API only', baseline_off_cmd='cd /repo && cargo test --workspace --no-fail-fast --offline', source_commits=[], add_only=True),
         engines=[dict(name='lean4-proof+correspondence', path='check', serves_properties=claimed, kind_free_text='Lean 4 model + theorems (lean/), translator (tools/translate.py), Rust harness (harness/), differential runner (tools/)')],
         checks=checks,
